@@ -356,6 +356,29 @@ def case_kG0(c, rng, tier):
     lin = sum(l * u for l, u in zip(loads, units))
     sc = sum(abs(l) * np.abs(u) for l, u in zip(loads, units)) + 1e-300
     c.judge('kG0 linear in axial force, pressure and torque', float((np.abs(G - lin) / (sc + 1e-6 * sc.max())).max()), 1e-9)
+    # the axial load given as the line load at the top edge (scalar, or the array of its circumferential harmonics) instead of the
+    # force: Nxxtop[0] = Fc / (2 pi r2 cos(alpha)) is the relation the class documents and applies itself when Fc is given
+    form = str(rng.choice(['scalar', 'array']))
+    c.tag('axial:' + form)
+    cc = gen.build_shell(d)
+    cc._rebuild()
+    N0 = loads[0] / (2 * np.pi * cc.r2 * np.cos(cc.alpharad))
+    cn = gen.build_shell(d)
+    cn.Fc = None; cn.P = loads[1]; cn.T = loads[2]
+    if form == 'scalar':
+        cn.Nxxtop = float(N0)
+    else:
+        arr = np.zeros(2 * d['n2'] + 1); arr[0] = N0
+        cn.Nxxtop = arr
+    try:
+        cn._calc_linear_matrices(silent=True)
+        Gn = cn.kG0.toarray()
+    except Exception as e:
+        c.info['nxxtop_rejected'] = '%s: %s' % (type(e).__name__, str(e)[:80])
+        Gn = None
+    if Gn is not None:
+        c.judge('axial load given as the top line load equals the same load given as a force', float((np.abs(Gn - G) / (sc + 1e-6 * sc.max())).max()), 1e-9,
+                data={'form': form})
     c.nontrivial = True
     return c
 
